@@ -74,7 +74,12 @@ func (ex *Exec) call(fr *Frame, instr ssa.Instruction, c *ssa.CallCommon, st *St
 
 // callAsserts checks the "assert call <callee> :: expr" clauses of the function under verification at this call.
 func (ex *Exec) callAsserts(fr *Frame, c *ssa.CallCommon, args []Val, st *State, reach Term, pos token.Pos) {
-	if fr.contract == nil || len(fr.contract.CallAsserts) == 0 || ex.dry > 0 {
+	// a call made inside an inlined helper without a contract of its own belongs to the function it is inlined into
+	owner := fr
+	for owner != nil && owner.contract == nil {
+		owner = owner.parent
+	}
+	if owner == nil || len(owner.contract.CallAsserts) == 0 || ex.dry > 0 {
 		return
 	}
 	var name string
@@ -85,7 +90,7 @@ func (ex *Exec) callAsserts(fr *Frame, c *ssa.CallCommon, args []Val, st *State,
 	} else {
 		return
 	}
-	for _, ca := range fr.contract.CallAsserts {
+	for _, ca := range owner.contract.CallAsserts {
 		if !strings.HasSuffix(name, ca.Callee) {
 			continue
 		}
@@ -93,7 +98,7 @@ func (ex *Exec) callAsserts(fr *Frame, c *ssa.CallCommon, args []Val, st *State,
 			ex.assertHit = map[*CallAssert]bool{}
 		}
 		ex.assertHit[ca] = true
-		env := ex.loopEnv(fr, nil, st)
+		env := ex.loopEnv(owner, nil, st)
 		env.pos = pos
 		env.old.pos = pos
 		for i, a := range args {
